@@ -105,6 +105,15 @@ func c13(c *ctx) {
 			}
 			cs.entries = append(cs.entries, entry{-1, long})
 		}
+		// medium inputs (150-600 runes): long enough for tokens and error tokens of more than 64 runes, short enough
+		// for the entry rules to be tried in turn on one instance (every failed attempt has its message formatted
+		// before the next attempt starts)
+		if med := string(gram.Derive(r, g, g.Rules[0].Name, alpha)); med != "" {
+			for len([]rune(med)) < 150+r.Intn(450) {
+				med += med
+			}
+			cs.entries = append(cs.entries, entry{-1, med}, entry{-1, med + "\x00"}, entry{-1, med[:len(med)/2] + "\U0010FFFF" + med[len(med)/2:]})
+		}
 		cases = append(cases, cs)
 	}
 	cases = append(cases, boundaryCases(len(cases))...)
@@ -112,7 +121,7 @@ func c13(c *ctx) {
 	cfgs := []config{{name: "memo", v: vPlain, memo: true}, {name: "nomemo", v: vPlain}, {name: "both", v: vBoth, memo: true}}
 	race := c.env.Tier == "thorough" || os.Getenv("VERIF_C13_RACE") != "" // generated parsers contain no unsafe code: an out-of-range access is a panic, which the
 	// monitor catches; the race/checkptr build is therefore only used in the thorough tier
-	f := &family{c: c, tag: "c13", race: race, configs: cfgs, refLimit: 3000000, maxDepth: 200, batch: 72, history: []string{"memo"}}
+	f := &family{c: c, tag: "c13", race: race, configs: cfgs, refLimit: 3000000, maxDepth: 200, batch: 72, history: []string{"memo"}, retries: []string{"memo", "nomemo"}}
 	f.judge = func(cs *gcase, e entry, it *ref.Interp, refOK bool, refEnd int, res map[string]*corpus.Res) {
 		id := report.Hash(cs.text, e.input)
 		for _, cf := range cfgs {
